@@ -31,6 +31,7 @@ type Call struct {
 	Manifest string // manifest digest, if the method has one
 	Layer    string // layer digest, if the method has one
 	Scanners []indexer.VersionedScanner
+	Report   *claircore.IndexReport // SetIndexReport, SetIndexFinished: the argument
 }
 
 // Verdict is the Hook's decision about a call.
@@ -307,7 +308,7 @@ func (s *Store) putReport(ir *claircore.IndexReport) error {
 }
 
 func (s *Store) SetIndexReport(ctx context.Context, ir *claircore.IndexReport) error {
-	ok, herr := s.enter(ctx, Call{Method: "SetIndexReport", Manifest: ir.Hash.String()})
+	ok, herr := s.enter(ctx, Call{Method: "SetIndexReport", Manifest: ir.Hash.String(), Report: ir})
 	if !ok {
 		return herr
 	}
@@ -320,7 +321,7 @@ func (s *Store) SetIndexReport(ctx context.Context, ir *claircore.IndexReport) e
 }
 
 func (s *Store) SetIndexFinished(ctx context.Context, ir *claircore.IndexReport, scnrs indexer.VersionedScanners) error {
-	ok, herr := s.enter(ctx, Call{Method: "SetIndexFinished", Manifest: ir.Hash.String(), Scanners: scnrs})
+	ok, herr := s.enter(ctx, Call{Method: "SetIndexFinished", Manifest: ir.Hash.String(), Scanners: scnrs, Report: ir})
 	if !ok {
 		return herr
 	}
